@@ -442,11 +442,15 @@ func (c *CertChecker) CheckCert(principal string, cert *Certificate) error {
 		clock = time.Now
 	}
 
+	// ValidAfter and ValidBefore are unsigned: compare them with the clock
+	// as uint64 (as OpenSSH does) so that values of 2^63 and above are not
+	// misread as negative. A clock before the epoch predates every
+	// certificate.
 	unixNow := clock().Unix()
-	if after := int64(cert.ValidAfter); after < 0 || unixNow < int64(cert.ValidAfter) {
+	if unixNow < 0 || uint64(unixNow) < cert.ValidAfter {
 		return fmt.Errorf("ssh: cert is not yet valid")
 	}
-	if before := int64(cert.ValidBefore); cert.ValidBefore != uint64(CertTimeInfinity) && (unixNow >= before || before < 0) {
+	if cert.ValidBefore != uint64(CertTimeInfinity) && uint64(unixNow) >= cert.ValidBefore {
 		return fmt.Errorf("ssh: cert has expired")
 	}
 	// Match OpenSSH: the SK user-presence flag is never enforced on a
